@@ -209,8 +209,11 @@ def run(cx: Cx):
         cx.violation('R-GUARD', fn.qualname, 'collectors-validated-before-any-work',
                      "batch_run does not reject an invalid `collectors` argument (not None / str / Iterable) with AttributeError "
                      "before building the parameter list or running anything", where=cx.where(fn))
-    from .common import check_no_stateful_memo
+    from .common import check_no_stateful_memo, check_presence_not_truthiness
     check_no_stateful_memo(cx)
+    # a requested collector is found by its id: the truth value of the collector object says nothing about presence (a collector
+    # class may define __len__ - one without records would be "missing")
+    check_presence_not_truthiness(cx, [BATCH + '_run_model_for_batch', BATCH + 'batch_run'])
 
 
 def _is_str(t):
